@@ -17,6 +17,14 @@ None / falsy (0, False, '', 0.0, []) / equal to the parameter's default / a
 value that makes the body raise.  A failure seen only with a subclassed
 functor (the same case passes with `pg.functor` of the same signature) gets
 the id prefix `subclassed-functor.`; otherwise the prefix is `functor.`.
+
+Further input classes: keywords that are not named parameters but carry the
+name of the variadic parameters (`args=`, `kw=`), positional-only parameters
+(`def f(a, /, ...)`), container-valued arguments edited in place (alone or in
+one rebind together with whole arguments), late binding while change
+notification is off, and families of callables that share one code object (or
+are one object) and differ only in what lives on the function object
+(`__defaults__`, `__kwdefaults__`, closure).
 """
 import copy
 import inspect
@@ -874,7 +882,8 @@ def drv_class_wrappers(tier, seed):
              + '); values: distinct ints and one of None / falsy / equal-to-default / __init__ '
              'raises per shape; attributes set by __init__ or error vs the original; isinstance; '
              'sym_init_args; clone / JSON copies; partial(...) + rebind(...) late binding; rebind of '
-             'one argument after construction; inspect.signature of the wrapper __init__'))
+             'one argument after construction; one rebind mixing an edit inside a bound dict value with '
+             'a whole argument (both orders); inspect.signature of the wrapper __init__'))
   r = rng(seed, 'c18-cls')
   kinds = list(CLS_WRAPPERS)
   for i, sig in enumerate(all_sigs()):
@@ -1306,13 +1315,16 @@ def drv_functor_late_binding(tier, seed):
              'defaults), one way of symbolizing each (function wrappers and subclassed functors, '
              'rotated by seed); history = construction with 0..n positionals (+ *args) and a keyword '
              'subset (+ an extra keyword), then 1..3 operations from rebind(**several) / attribute '
-             'assignment / del of a bound name (incl. *args and extra keywords), values distinct ints '
-             'or None / falsy / equal-to-default; then: specified_args and sym_init_args vs the '
+             'assignment / del of a bound name (incl. *args and extra keywords) / assignment to a place '
+             'inside a bound dict/list value or inside *args / rebind({path: value}) mixing such inner '
+             'paths with whole arguments in seeded order, values distinct ints '
+             'or None / falsy / equal-to-default / nested dict-list containers; then: specified_args and sym_init_args vs the '
              'names/values bound per history (del -> unbound -> default), call with nothing, call '
              'with 0..2 late positionals + keyword subset with/without override (late value for a '
              'bound name is an error without override, for an un-bound name it is not), and the same '
              'on clone / deep clone / JSON copies; ' + str(nh) + ' seeded histories per signature; '
-             'also calls under pg.enable_type_check(False)'))
+             'also calls under pg.enable_type_check(False), and an argument bound by rebind under '
+             'pg.notify_on_change(False) (2 per signature)'))
   r = rng(seed, 'c18-late')
   fl = flavored_sigs()
   if quick:
@@ -1844,9 +1856,10 @@ def drv_callables_sharing_code(tier, seed):
              '__defaults__/__kwdefaults__ are re-assigned before it is symbolized again; classes made '
              'by a factory / whose __init__ defaults are re-assigned; all siblings symbolized first '
              '(6 function wrappers + as_functor, 4 class wrappers; '
-             + ('one function kind and one class kind per signature' if quick else 'all kinds')
+             + ('one function kind and one class kind' if quick else 'two function kinds and two class kinds')
+             + ' per signature, rotated'
              + '), then each compared with its own original: generated __init__ signature, calls '
-             'using every default / none / ' + ('4' if quick else '16') + ' seeded shapes at '
+             'using every default / none / ' + ('4' if quick else '8') + ' seeded shapes at '
              'construction and at call time, sym_init_args, clone / JSON copies; the same function '
              'object symbolized by several wrappers in a row (typed before untyped and back)'))
   r = rng(seed, 'c18-siblings')
@@ -1854,14 +1867,17 @@ def drv_callables_sharing_code(tier, seed):
   if quick:
     sigs = _pick(sigs, r, 48)
   cls_kinds = list(CLS_WRAPPERS)
-  limit = 4 if quick else 16
+  limit = 4 if quick else 8
   for i, sig in enumerate(sigs):
     fk = SIBLING_FN_KINDS[(i + seed) % len(SIBLING_FN_KINDS)]
     ck = cls_kinds[(i + seed) % len(cls_kinds)]
-    todo = ([(fk, FN_SIBLING_FLAVORS[(i // 2 + seed) % len(FN_SIBLING_FLAVORS)]),
-             (ck, CLS_SIBLING_FLAVORS[(i // 3 + seed) % len(CLS_SIBLING_FLAVORS)])] if quick else
-            [(k, fl) for k in SIBLING_FN_KINDS for fl in FN_SIBLING_FLAVORS]
-            + [(k, fl) for k in cls_kinds for fl in CLS_SIBLING_FLAVORS])
+    todo = [(fk, FN_SIBLING_FLAVORS[(i // 2 + seed) % len(FN_SIBLING_FLAVORS)]),
+            (ck, CLS_SIBLING_FLAVORS[(i // 3 + seed) % len(CLS_SIBLING_FLAVORS)])]
+    if not quick:
+      todo += [(SIBLING_FN_KINDS[(i + seed + 3) % len(SIBLING_FN_KINDS)],
+                FN_SIBLING_FLAVORS[(i // 2 + seed + 2) % len(FN_SIBLING_FLAVORS)]),
+               (cls_kinds[(i + seed + 2) % len(cls_kinds)],
+                CLS_SIBLING_FLAVORS[(i // 3 + seed + 1) % len(CLS_SIBLING_FLAVORS)])]
     for kind, flavor in todo:
       s = sig.typed('auto_typing' in kind and flavor != 'lambda-in-loop')
       sh = _sibling_shapes(s, r, limit)
@@ -1881,7 +1897,7 @@ def drv_callables_sharing_code(tier, seed):
           _sibling_checks(rec, s, kind, flavor, j, pairs[j][0], pairs[j][1], prelude, sh, json_ok=True)
   # One function object symbolized several times in a row by different wrappers.
   orders = list(itertools.permutations(['pg.functor(auto_typing)', 'pg.functor', 'pg.functor(spec)', 'pg.symbolize'], 3))
-  many = _pick([s for s in all_sigs() if not s.va or True], r, 12 if quick else 120)
+  many = _pick(all_sigs(), r, 12 if quick else 120)
   for i, sig in enumerate(many):
     order = orders[(i + seed) % len(orders)]
     s = sig.typed(True)
